@@ -195,6 +195,19 @@ def labeldiff_programs(k):
             yield [u, L.label('A')] + list(body) + [L.label('B')]
 
 
+def labelexpr_jump_programs():
+    """a transfer whose displacement is an EXPRESSION of a label (L - K, %position(L, -K)): it does not get closer when code shrinks, so a compressed form chosen on the
+    value seen during the compression pass can fail later although the 32-bit form would have encoded the final value"""
+    def line(text):
+        return dict(k='inst', mn='?', f={}, text=text)
+    addi = line('addi x8, x8, 1')
+    for k in list(range(2040, 2062, 2)) + list(range(250, 270, 2)) + [4094, 4096, 4098]:
+        for x in ('jal x0, L - %d', 'jal x1, L - %d', 'beq x8, x0, L - %d', 'bne x9, x0, %%position(L, -%d)', 'jal x0, %d - L', 'beq x8, x0, %d - L', 'jal x0, L + -%d'):
+            for pad in (0, 1, 3):
+                yield [addi] * pad + [line(x % k), L.label('L'), line('add x5, x6, x7')]
+                yield [L.label('L')] + [addi] * pad + [line(x % k), line('add x5, x6, x7')]
+
+
 def shadow_programs():
     """a transfer whose target NAME is defined both as a constant and as a label (without -c the constant wins, an absolute address): whatever the
     uncompressed build makes of it, the -c build must not be refused"""
@@ -218,6 +231,7 @@ def s2_tasks(tier):
     ts += [dict(src='symbolic', part=i, parts=16) for i in range(16)]
     ts += [dict(src='labeldiff', k=k) for k in range(0, 9)]
     ts += [dict(src='shadow')]
+    ts += [dict(src='labelexpr')]
     ts += [dict(src='nearlabel', part=i, parts=64) for i in range(64)]
     # the literal pseudo-instructions (li over its whole structured value set in both spellings, mv / not / neg / jr ..., numeric-offset transfers), one per program
     ts += [dict(src='pseudolit', part=i, parts=16) for i in range(16)]
@@ -240,6 +254,8 @@ def s2_programs(task):
         yield from labeldiff_programs(task['k'])
     elif k == 'shadow':
         yield from shadow_programs()
+    elif k == 'labelexpr':
+        yield from labelexpr_jump_programs()
     elif k == 'pseudolit':
         from mc.props import c20
         lits = c20.pseudo_literals(task['tier'])
